@@ -200,6 +200,19 @@ int main(int argc, char** argv)
       vf::hit("hex_inputs"); if(od.len) vf::hit("distinct_nontrivial");
       if(sstr(h) != want) vf::violation("C18:hex", cs, "fromHex gives '" + sstr(h) + "'");
     }
+    // every input length 3..300 (the result is sized from the input length) with three contents
+    for(int len = 3; len <= 300; ++len) for(int g = 0; g < 3; ++g)
+    {
+      if(!sh.take()) continue;
+      std::string b; for(int i = 0; i < len; ++i) b += (char)(g == 0 ? 0x00 : g == 1 ? 0xFF : (i * 37 + len));
+      std::string cs = vf::fmt("hex length %d content %d", len, g);
+      vf::crumb("hex", sh.token(), cs);
+      vf::Exact e(b.data(), b.size());
+      String h = String::fromHex((const byte*)e.p, b.size());
+      std::string want = vf::hex(b); for(size_t i = 0; i < want.size(); ++i) want[i] = toupper(want[i]);
+      vf::hit("hex_inputs"); vf::hit("distinct_nontrivial");
+      if(sstr(h) != want || (usize)strlen((const char*)h) != h.length()) vf::violation("C18:hex", cs, "fromHex gives '" + sstr(h) + "'");
+    }
   }
   else if(mode == "base64")
   {
@@ -241,6 +254,38 @@ int main(int argc, char** argv)
         vf::hit("base64_arbitrary");
         if(out.length() > 3 * b.size() / 4) vf::violation("C18:base64:length", cs, "decoded more bytes than the input can hold");
         if(phase == 0 && od.d[0] == 9 && od.d[1] == 5) vf::sample(cs, 2);
+      }
+    }
+    // every length, not only whole groups: all strings of 0..9 symbols over {Q = - /} and runs of 10..70 valid symbols with
+    // every tail of up to two '=' or one foreign byte (the output buffer is sized from the input length)
+    {
+      static const char S4[] = {'Q', '=', '-', '/'};
+      vf::Odometer od(4, 9);
+      while(od.next())
+      {
+        if(!sh.take()) continue;
+        std::string b; for(int i = 0; i < od.len; ++i) b += S4[od.d[i]];
+        std::string cs = "base64 arbitrary input " + vf::hex(b);
+        vf::crumb("base64", sh.token(), cs);
+        if((n++ & 0x3ff) == 0) vf::watchdog_arm(20000);
+        String in(b.data(), b.size());
+        String out = String::fromBase64(in);
+        vf::hit("base64_arbitrary"); vf::hit("base64_lengths");
+        if(out.length() > 3 * b.size() / 4) vf::violation("C18:base64:length", cs, "decoded more bytes than the input can hold");
+      }
+      static const char* TAIL[] = {"", "=", "==", "-", "Q=", "=Q"};
+      for(int len = 10; len <= 70; ++len) for(int t = 0; t < 6; ++t)
+      {
+        if(!sh.take()) continue;
+        std::string tail = TAIL[t];
+        std::string b(len - tail.size(), 'Q'); b += tail;
+        std::string cs = "base64 arbitrary input " + vf::hex(b);
+        vf::crumb("base64", sh.token(), cs);
+        vf::watchdog_arm(20000);
+        String in(b.data(), b.size());
+        String out = String::fromBase64(in);
+        vf::hit("base64_arbitrary"); vf::hit("base64_lengths");
+        if(out.length() > 3 * b.size() / 4) vf::violation("C18:base64:length", cs, "decoded more bytes than the input can hold");
       }
     }
     // every byte value at every position of two well-formed groups, and every pair of byte values in the last two positions
